@@ -91,6 +91,11 @@ def rule_sel(ctx, M, u):
             if good:
                 it = t[2][0]
                 good = it[0] == "call" and it[1][1] in ("iter_pin_mut", "iter_pin_mut_vec") and it[2] and it[2][0] == scan.self_field("streams")
+            elif t[0] == "call" and t[1][1] in ("get_pin_mut", "get_pin_mut_from_vec") and len(t[2]) == 2:
+                # the crate's own pinned accessor: element `index` of the whole container
+                good = t[2][0] == scan.self_field("streams") and t[2][1] == INDEX
+            elif t[0] == "index":
+                good = t[1] == scan.self_field("streams") and t[2] == INDEX
             if not good:
                 probs.append("polled input is not iter_pin_mut(self.streams).nth(self.index) (%s)" % short(c.child))
     for c in u.cps:
